@@ -157,6 +157,7 @@ def header_tasks(prop, tier):
     if prop == "C02":
         cfgs = [dict(nd=3, nf=2, nboxes=[2, 1], maxmins=True, files=2), dict(nd=2, nf=2, nboxes=[1, 2], limit=0, ref_extra=1),
                 dict(nd=3, nf=3, nboxes=[1], repeated=(0, 2)), dict(nd=3, nf=1, nboxes=[1, 1], header_only=True),
+                dict(nd=3, nf=4, nboxes=[1], repeated=(0, 1, 3), maxmins=True),        # one name three times: name, name_2, name_3
                 dict(nd=2, nf=1, nboxes=[1, 1], limit=2), dict(nd=3, nf=2, nboxes=[1, 1, 1], limit=1, maxmins=True)]
         if tier == "thorough":
             cfgs += [dict(nd=3, nf=4, nboxes=[2, 3, 2, 1], maxmins=True, files=2, ref_extra=2, repeated=(1, 3)),
